@@ -249,7 +249,8 @@ def gen_gradient_descent_quadratics(rng):
 
 
 def gen_gradient_descent_silver_stepsize_convex(rng):
-    n = int(rng.choice([1, 3, 7])) if rng.random() < 0.8 else _n(rng, 2, 6)
+    # any n is admissible: the docstring says it is reset to the largest 2^k - 1 not larger than the input
+    n = int(rng.choice([1, 3, 7])) if rng.random() < 0.4 else _n(rng, 2, 9)
     return {"L": _L(rng), "n": n}
 
 
